@@ -12,8 +12,10 @@ use crate::dynamic::{
 impl SchemaInner {
     pub(crate) fn check(&self) -> Result<(), SchemaError> {
         self.check_types_exists()?;
+        self.check_type_names()?;
         self.check_root_types()?;
         self.check_objects()?;
+        self.check_subscriptions()?;
         self.check_input_objects()?;
         self.check_interfaces()?;
         self.check_unions()?;
@@ -42,6 +44,28 @@ impl SchemaInner {
             return Err("The subscription root must be a subscription object".into());
         }
 
+        // The query, mutation, and subscription root types must all be different
+        // types if provided.
+        let registry = &self.env.registry;
+        if registry.mutation_type.as_deref() == Some(registry.query_type.as_str())
+            || registry.subscription_type.as_deref() == Some(registry.query_type.as_str())
+            || (registry.mutation_type.is_some()
+                && registry.mutation_type == registry.subscription_type)
+        {
+            return Err("The query, mutation and subscription roots must be different types".into());
+        }
+
+        Ok(())
+    }
+
+    fn check_type_names(&self) -> Result<(), SchemaError> {
+        // All types defined within a schema must not have a name which begins
+        // with "__" (two underscores).
+        for name in self.types.keys() {
+            if name.starts_with("__") {
+                return Err(format!("Type \"{}\" must not have a name which begins with the characters \"__\" (two underscores)", name).into());
+            }
+        }
         Ok(())
     }
 
@@ -61,7 +85,8 @@ impl SchemaInner {
         check(
             &self.types,
             std::iter::once(self.env.registry.query_type.as_str())
-                .chain(self.env.registry.mutation_type.as_deref()),
+                .chain(self.env.registry.mutation_type.as_deref())
+                .chain(self.env.registry.subscription_type.as_deref()),
         )?;
 
         for ty in self.types.values() {
@@ -92,7 +117,8 @@ impl SchemaInner {
                             std::iter::once(field.ty.type_name())
                                 .chain(field.arguments.values().map(|arg| arg.ty.type_name()))
                         })
-                        .flatten(),
+                        .flatten()
+                        .chain(interface.implements.iter().map(AsRef::as_ref)),
                 )?,
                 Type::Union(union) => check(&self.types, &union.possible_types)?,
                 Type::Subscription(subscription) => check(
@@ -177,6 +203,56 @@ impl SchemaInner {
                             format!("Type \"{}\" is not interface", interface_name)
                         })?;
                         check_is_valid_implementation(&self.types, obj, &obj.implements, interface)?;
+                    }
+                }
+            }
+        }
+
+        Ok(())
+    }
+
+    fn check_subscriptions(&self) -> Result<(), SchemaError> {
+        // The subscription root is an Object type: the rules of `check_objects`
+        // apply to it as well.
+        for ty in self.types.values() {
+            if let Type::Subscription(subscription) = ty {
+                if subscription.fields.is_empty() {
+                    return Err(format!(
+                        "Subscription \"{}\" must define one or more fields",
+                        subscription.name
+                    )
+                    .into());
+                }
+
+                for field in subscription.fields.values() {
+                    if field.name.starts_with("__") {
+                        return Err(format!("Field \"{}.{}\" must not have a name which begins with the characters \"__\" (two underscores)", subscription.name, field.name).into());
+                    }
+
+                    if let Some(ty) = self.types.get(field.ty.type_name())
+                        && !ty.is_output_type()
+                    {
+                        return Err(format!(
+                            "Field \"{}.{}\" must return a output type",
+                            subscription.name, field.name
+                        )
+                        .into());
+                    }
+
+                    for arg in field.arguments.values() {
+                        if arg.name.starts_with("__") {
+                            return Err(format!("Argument \"{}.{}.{}\" must not have a name which begins with the characters \"__\" (two underscores)", subscription.name, field.name, arg.name).into());
+                        }
+
+                        if let Some(ty) = self.types.get(arg.ty.type_name())
+                            && !ty.is_input_type()
+                        {
+                            return Err(format!(
+                                "Argument \"{}.{}.{}\" must accept a input type",
+                                subscription.name, field.name, arg.name
+                            )
+                            .into());
+                        }
                     }
                 }
             }
